@@ -386,7 +386,7 @@ def run(tier):
         jobs = [(MOD, "job_attr", {"states": s, "depth": depth, "deep_from_initial": False}) for s in core.shard(sel, core.NPROC * 4)]
         jobs.append((MOD, "job_attr", {"states": [], "depth": 2, "deep_from_initial": True}))
         jobs.append((MOD, "job_refusing", {}))
-        pool.run(jobs, into=t)
+        pool.run(jobs + [("mc.positional", "job", {"pid": "C20"})], into=t)
     finally:
         pool.close()
     cov = {
@@ -403,7 +403,7 @@ def run(tier):
         "bounds": summ + [{"attribute_start_states": len(sel), "of": len(states), "event_menu": 22, "depth": "2 (3 from the initial state)"}],
     }
     return {"tally": t, "coverage": cov, "known": known,
-            "guards": ("writes_through_links", "structural_events", "constructor_kwargs", "sequences", "refusals", "pre_hook_vetoes",
+            "guards": ("positional_calls", "writes_through_links", "structural_events", "constructor_kwargs", "sequences", "refusals", "pre_hook_vetoes",
                        "retargets", "refused_writes", "constructor_positions", "equal_value_writes", "none_writes", "long_chain_checks"),
             "assumptions": ["attribute names {foo, bar, name, baz, nope}; bounded universes", "C03 known findings apply to link nodes "
                             "identically (same setter code) and are matched exactly as in C03"]}
